@@ -42,6 +42,11 @@ theorem isLitBool_unmarkDeep {x : Value} (b : Bool) (h : x.isMarked = false) :
   obtain ⟨t, p⟩ := x
   cases p <;> simp_all [isMarked, Payload.isMarked, unmarkDeep, Payload.stripMarks, isLitBool]
 
+theorem rawEqualsZero_unmarkDeep {x : Value} (h : x.isMarked = false) :
+    rawEqualsZero x.unmarkDeep = rawEqualsZero x := by
+  obtain ⟨t, p⟩ := x
+  cases p <;> simp_all [isMarked, Payload.isMarked, unmarkDeep, Payload.stripMarks, rawEqualsZero]
+
 theorem keyIndex_unmarkDeep {x : Value} (h : x.isMarked = false) : keyIndex x.unmarkDeep = keyIndex x := by
   obtain ⟨t, p⟩ := x
   cases p <;> simp_all [isMarked, Payload.isMarked, unmarkDeep, Payload.stripMarks, keyIndex]
@@ -102,7 +107,14 @@ macro "clean_walk" : tactic => `(tactic|
 
 theorem addU_clean (a b : Value) : (addU a b).All Clean := by unfold addU; clean_walk
 theorem subU_clean (a b : Value) : (subU a b).All Clean := by unfold subU; clean_walk
-theorem mulU_clean (a b : Value) : (mulU a b).All Clean := by unfold mulU; clean_walk
+theorem mulU_clean (a b : Value) : (mulUC a b).All Clean := by
+  unfold mulUC
+  apply Res.All.bind; intro _
+  split
+  · clean_walk
+  · apply Res.All.ite <;> intro _
+    · exact Res.All.pure rfl
+    · exact rangeArith_clean _ _ _
 theorem divU_clean (a b : Value) : (divU a b).All Clean := by unfold divU; clean_walk
 theorem negU_clean (a : Value) : (negU a).All Clean := by unfold negU; clean_walk
 theorem absU_clean (a : Value) : (absU a).All Clean := by
@@ -148,9 +160,9 @@ theorem addU_strip : addU x.unmarkDeep y.unmarkDeep = addU x y := by
 theorem subU_strip : subU x.unmarkDeep y.unmarkDeep = subU x y := by
   simp only [subU, rangeArith, typeCheck2_unmarkDeep _ hx hy, asNum_unmarkDeep hx, asNum_unmarkDeep hy,
     range_unmarkDeep hx, range_unmarkDeep hy]
-theorem mulU_strip : mulU x.unmarkDeep y.unmarkDeep = mulU x y := by
-  simp only [mulU, rangeArith, typeCheck2_unmarkDeep _ hx hy, asNum_unmarkDeep hx, asNum_unmarkDeep hy,
-    range_unmarkDeep hx, range_unmarkDeep hy]
+theorem mulU_strip : mulUC x.unmarkDeep y.unmarkDeep = mulUC x y := by
+  simp only [mulUC, rangeArith, typeCheck2_unmarkDeep _ hx hy, asNum_unmarkDeep hx, asNum_unmarkDeep hy,
+    range_unmarkDeep hx, range_unmarkDeep hy, rawEqualsZero_unmarkDeep hx, rawEqualsZero_unmarkDeep hy]
 theorem divU_strip : divU x.unmarkDeep y.unmarkDeep = divU x y := by
   simp only [divU, typeCheck2_unmarkDeep _ hx hy, asNum_unmarkDeep hx, asNum_unmarkDeep hy]
 theorem lessThanU_strip : lessThanU x.unmarkDeep y.unmarkDeep = lessThanU x y := by
